@@ -24,7 +24,7 @@ if os.environ.get("VERIF_C07_MODEL") == "deviant":  # experimentation only
     CODE_CONSTS = DEVIANT
 
 
-ALL_SYMS = list(range(1, 20))
+ALL_SYMS = list(range(1, 21))
 BOOK_SYMS_QUICK = [1, 5, 12, 13, 14, 15]          # two atoms of different residues, TER, END, MODEL, ENDMDL
 BOOK_SYMS_THOROUGH = [1, 4, 5, 8, 12, 13, 14, 15]  # + insertion-code residue, water
 
@@ -319,7 +319,7 @@ def explore(ctx, rng, symset, maxlen, label):
     for n, (c, o) in enumerate(zip(cases, observed)):
         kinds = [alphabet[s - 1]["k"] for s in c["file"]]
         if c["wf"] and "atom" in kinds and (len(set(kinds)) > 1 or len(kinds) > len(set(c["file"]))
-                                            or any(s in (2, 3, 4, 7, 10, 11, 19) for s in c["file"])):
+                                            or any(s in (2, 3, 4, 7, 10, 11, 19, 20) for s in c["file"])):
             ctx.nontrivial.add((c["dw"], tuple(c["file"])))
         t = {"id": n, "dw": c["dw"], "file": c["file"], "res": o}
         if norm(o) != norm(c["res"]):
@@ -351,7 +351,7 @@ def explore(ctx, rng, symset, maxlen, label):
 def run(ctx):
     rng = random.Random(ctx.seed)
     maxlen = 4 if ctx.quick else 5
-    ctx.rule = ("TLC enumerates every file of <= MaxLen lines over the 19-symbol alphabet of MC_PdbReader x "
+    ctx.rule = ("TLC enumerates every file of <= MaxLen lines over the 20-symbol alphabet of MC_PdbReader x "
                 "{drop-water on, off}; each is rendered to PDB text and read by the real get_molecule/"
                 "drop_water/setup_molecule.  Non-trivial = well-formed file with at least one coordinate line "
                 "and at least one non-coordinate line or duplicate/alternate/insertion/blank-chain atom; "
